@@ -29,6 +29,79 @@ func C14Configs(p *spec.Program) []spec.Config {
 	return []spec.Config{a, b}
 }
 
+// C14ConfigsFor derives, for any program, two logical configurations with >= 2 entries in every map-
+// or set-valued option and both key forms (full path and Message.Field) aimed at one field.
+func C14ConfigsFor(p *spec.Program) []spec.Config {
+	a := p.Config.Clone()
+	b := p.Config.Clone()
+	b.Sort = !a.Sort
+	b.TargetPackageName = "outpkg"
+	b.DefaultPackageName = "example.com/api/types"
+	b.ImportPathOverrides = map[string]string{"example.com/api/types": "example.com/moved/types", "example.com/other": "example.com/other/v2"}
+	// a field reachable as Root.F.X and M.X
+	var pathKey, typeKey string
+	for _, rn := range p.Config.Types {
+		r := p.Msg(rn)
+		for _, f := range r.Fields {
+			if f.Kind != spec.KMessage || f.Embed || f.Oneof != "" {
+				continue
+			}
+			for _, x := range p.Msg(f.Ref).Fields {
+				if x.Kind != spec.KMessage && x.Oneof == "" && x.Card == "" {
+					pathKey, typeKey = rn+"."+f.Name+"."+x.Name, f.Ref+"."+x.Name
+					break
+				}
+			}
+			if pathKey != "" {
+				break
+			}
+		}
+		if pathKey != "" {
+			break
+		}
+	}
+	others := otherFields(p, append(append([]string{typeKey}, b.ExcludeFields...), keysOf(b.NameOverrides)...), 4)
+	b.Validators, b.PlanModifiers = map[string][]string{}, map[string][]string{}
+	if b.NameOverrides == nil {
+		b.NameOverrides = map[string]string{}
+	}
+	if pathKey != "" {
+		b.Validators[pathKey], b.Validators[typeKey] = []string{"UsePathValidator()"}, []string{"UseTypeValidator()", "UseSimValidator()"}
+		b.PlanModifiers[pathKey], b.PlanModifiers[typeKey] = []string{"PathModifier()"}, []string{"TypeModifier()"}
+		b.NameOverrides[pathKey], b.NameOverrides[typeKey] = "name_by_path", "name_by_type"
+	}
+	for i, o := range others {
+		switch i {
+		case 0:
+			b.Validators[o] = []string{"UseSimValidator()", "UseOtherValidator()"}
+			b.PlanModifiers[o] = []string{"github.com/hashicorp/terraform-plugin-framework/tfsdk.RequiresReplace()", "github.com/hashicorp/terraform-plugin-framework/tfsdk.UseStateForUnknown()"}
+		case 1:
+			b.Validators[o] = []string{"UseSimValidator()"}
+		case 2:
+			b.SchemaTypes = map[string]spec.SchemaType{o: {Type: "SimStrType", ValueType: "SimStrValue", CastToType: "string", CastFromType: "string"}}
+		case 3:
+			b.SchemaTypes[o] = spec.SchemaType{Type: "SimStrType", ValueType: "SimStrValue", CastToType: "string", CastFromType: "string"}
+		}
+	}
+	if len(b.Types) > 1 {
+		if b.InjectedFields == nil {
+			b.InjectedFields = map[string][]spec.Injected{}
+		}
+		b.InjectedFields[b.Types[1]] = []spec.Injected{
+			{Name: "id", Type: "github.com/hashicorp/terraform-plugin-framework/types.StringType", Computed: true},
+			{Name: "extra", Type: "github.com/hashicorp/terraform-plugin-framework/types.Int64Type", Optional: true}}
+	}
+	return []spec.Config{a, b}
+}
+
+func keysOf(m map[string]string) []string {
+	var r []string
+	for k := range m {
+		r = append(r, k)
+	}
+	return r
+}
+
 // C14Cases: per configuration one identity reference and nSched perturbed runs.
 func C14Cases(p *spec.Program, cfgs []spec.Config, seed uint64, tier string, nSched int) []*Case {
 	r := NewRand(seed)
